@@ -74,6 +74,8 @@ def _fz(tier, n):
 
 def cases(tier):
     yield Case("large", {"kind": "large"})
+    for n in (5, 11, 12, 30):
+        yield Case("neartie:n=%d" % n, {"kind": "neartie", "n": n})
     # grey (apodised / soft-edged) masks: every mask over {0, 1/2, 1} on 2x2 and 3x3
     yield Case("grey:n=2:codes=0-80", {"kind": "grey", "n": 2, "lo": 0, "hi": 81})
     for lo in range(0, 3 ** 9, 2500 if tier == "quick" else 1000):
@@ -128,6 +130,8 @@ def cases(tier):
 def evaluate(p):
     if p["kind"] == "large":
         return _large(p)
+    if p["kind"] == "neartie":
+        return _neartie(p)
     if p["kind"] == "grey":
         return _grey(p)
     if p["kind"] == "storage":
@@ -492,6 +496,18 @@ def _storage(p):
     n = variants.check_storage(o, "selection_independent_of_mask_storage",
                                lambda a: wfslib.computeFillFactor(a, pos, 3), mask, 1e-12, sub="fill", kinds=kinds)
     o.stat("lib_calls", n)
+    # the scatter of slopes into the 2-d map for a mask that is NOT equal to its transpose, in every memory layout
+    amask = numpy.array(pupil.circle(4.2, 12, (1.5, -2.0)) - pupil.circle(1.2, 12, (2.5, 0.0)))
+    ns = int(amask.sum())
+    slopes = 0.37 + numpy.arange(2 * 2 * ns, dtype=float).reshape(2, 2, ns)
+    n = variants.check_storage(o, "scatter_independent_of_mask_storage", lambda a: wfslib.make_subaps_2d(slopes.copy(), a),
+                               amask, 0.0, sub="asymmetric", kinds=("int64", "uint8", "float32"))
+    n += variants.check_storage(o, "scatter_independent_of_slope_storage", lambda a: wfslib.make_subaps_2d(a, amask.copy()),
+                                slopes, 0.0, sub="asymmetric", kinds=())
+    for subaps in (3, 4):
+        n += variants.check_storage(o, "selection_independent_of_mask_storage", lambda a: wfslib.findActiveSubaps(subaps, a, 0.4, returnFill=True),
+                                    amask, 1e-12, sub="asymmetric:subaps=%d" % subaps, kinds=kinds)
+    o.stat("lib_calls", n)
     # numpy scalars as circle arguments
     for r, nn, c in ((2.5, 6, (0.5, -0.5)), (3, 7, (1, 0)), (1.25, 5, (0, 0))):
         want = numpy.asarray(pupil.circle(r, nn, c))
@@ -553,4 +569,50 @@ def _large(p):
     agg = _Agg()
     _check_selection(o, agg, wfslib, mi, [65, 26, 13, 10, 7], "annulus 130")
     agg.flush(o)
+    return o
+
+
+def _neartie(p):
+    """'for arbitrary real r and c': radii a hair below and above every distance a pixel centre actually attains
+    (relative offsets 1e-9 and 1e-13, far above float64 rounding of x^2 + y^2, far below single precision), for
+    centres on the quarter-pixel lattice; and one disc whose radius and centre are millions of pixels away.  The
+    pixels AT the attained distance are outside the smaller disc and inside the larger one."""
+    from aotools.functions import pupil
+    o = Out()
+    n = p["n"]
+    worst_bad = 0
+    for origin in ("middle", "corner"):
+        for (cx4, cy4) in ((0, 0), (2, 0), (1, -3), (4, 6)):
+            d2 = geom.squared_distance_q(n, cx4, cy4, origin)          # integers, units (1/4 px)^2
+            cc = (cx4 / 4.0, cy4 / 4.0)
+            for v in numpy.unique(d2):
+                if v == 0:
+                    continue
+                r = float(numpy.sqrt(float(v))) / 4.0
+                for eps, want in ((-1e-9, d2 < v), (-1e-13, d2 < v), (1e-13, d2 <= v), (1e-9, d2 <= v)):
+                    got = numpy.asarray(pupil.circle(r * (1.0 + eps), n, cc, origin))
+                    o.stat("lib_calls", 1)
+                    ok = got.shape == (n, n) and numpy.array_equal(got.astype(bool), want)
+                    if not ok:
+                        worst_bad += 1
+                        if worst_bad <= 12:
+                            o.check("exact_indicator_near_ties", False,
+                                    sub="%s:c=%s:r=sqrt(%d)/4*(1%+g)" % (origin, cc, int(v), eps),
+                                    detail="%d pixels differ" % (int(numpy.sum(got.astype(bool) != want)) if got.shape == (n, n) else -1))
+    if worst_bad == 0:
+        o.check("exact_indicator_near_ties", True)
+    elif worst_bad > 12:
+        o.check("exact_indicator_near_ties", False, sub="(more)", detail="%d failing (r, c) in all" % worst_bad)
+    # far-away disc: r = 2^23 px, centre 2^23 + 20.25 px to the right of the corner (all values exact in float64)
+    R = 2 ** 23
+    k = numpy.arange(n)
+    for dx4 in (81, 82, 4 * 20 + 3):                     # centre at 2^23 + 20.25 / 20.5 / 20.75
+        cx4, cy4 = 4 * R + dx4, 12
+        X = (4 * k + 2 - cx4).astype(object)
+        Y = (4 * k + 2 - cy4).astype(object)
+        want = numpy.array([[int(X[i]) ** 2 + int(Y[j]) ** 2 <= (4 * R) ** 2 for i in range(n)] for j in range(n)])
+        got = numpy.asarray(pupil.circle(float(R), n, (cx4 / 4.0, cy4 / 4.0), "corner"))
+        o.stat("lib_calls", 1)
+        o.check("exact_indicator_far_centre", got.shape == (n, n) and numpy.array_equal(got.astype(bool), want),
+                sub="cx=2^23+%g" % (dx4 / 4.0), detail=int(numpy.sum(got.astype(bool) != want)) if got.shape == (n, n) else None)
     return o
